@@ -35,9 +35,14 @@ class Namer:
 
 
 def generate(rng, profile="any", ndefs=None, nlibs=None, style="simple", max_children=4, share=0.5,
-             outside=True, top_child_ok=False, name_netlist=True):
+             outside=True, top_child_ok=False, name_netlist=True, big=None):
     r = rng
     strict = profile in ("edif", "flatten")
+    # one netlist in twelve is "big": two-digit widths and sibling counts (indices and name suffixes gain a digit), one cell
+    # instanced a dozen times, a chain of cells that adds hierarchy depth
+    big = (r.random() < 0.06) if big is None else big
+    if big:
+        max_children = max(max_children, 10)
     nm = Namer(r, style)
     n = sdn.Netlist("net%d" % r.randrange(1000) if (name_netlist or strict) else None)
     nlibs = nlibs or r.choice([1, 2, 2, 3])
@@ -57,10 +62,12 @@ def generate(rng, profile="any", ndefs=None, nlibs=None, style="simple", max_chi
     def mk_ports(d, lo, hi, inputs_outputs=True):
         for j in range(r.randint(lo, hi)):
             w = r.choice([1, 1, 1, 2, 3, 4])
+            if big and r.random() < 0.3:
+                w = r.choice([9, 10, 11, 17])
             arr1 = (w == 1 and r.random() < 0.25)
             kw = {}
             if w > 1 or arr1:
-                kw["lower_index"] = r.choice([0, 0, 1, 3])
+                kw["lower_index"] = r.choice([0, 0, 1, 3, 257])
                 if r.random() < 0.3:
                     kw["is_downto"] = False
             if not strict and r.random() < 0.05:
@@ -117,13 +124,15 @@ def generate(rng, profile="any", ndefs=None, nlibs=None, style="simple", max_chi
                 a_, b_ = r.choice(pairs)
                 d.create_child(maybe(nm(("i", id(d)), "same_own")), reference=a_)
                 d.create_child(maybe(nm(("i", id(d)), "same_foreign")), reference=b_)
-        ncab = r.randint(0 if nch else (1 if kind < 0.08 else 0), 5)
+        ncab = r.randint(0 if nch else (1 if kind < 0.08 else 0), 11 if big else 5)
         for j in range(ncab):
             w = r.choice([1, 1, 1, 2, 3])
+            if big and r.random() < 0.25:
+                w = r.choice([9, 10, 12, 17])
             arr1 = (w == 1 and r.random() < 0.2)
             kw = {}
             if w > 1 or arr1:
-                kw["lower_index"] = r.choice([0, 0, 2, 5])
+                kw["lower_index"] = r.choice([0, 0, 2, 5, 300])     # (a base beyond 256: bit numbers that are no small integers)
             if not strict and r.random() < 0.04:
                 w = 0
             cbase = r.choice(["c", "net", "w"]) + str(j)
@@ -151,6 +160,18 @@ def generate(rng, profile="any", ndefs=None, nlibs=None, style="simple", max_chi
                 if r.random() < 0.75:
                     r.choice(wires).connect_pin(p, position=r.choice([None, None, 0]))
         defs.append(d)
+    if big and len(defs) >= 2:
+        # depth: a chain of wrapper cells, each holding the previous one (and sometimes a second copy of it), below the last cell
+        cur = defs[-2] if len(defs[-2].children) else r.choice(defs[:-1])
+        for k in range(r.randint(2, 3)):
+            wdef = cur.library.create_definition(nm(("d", libs.index(cur.library)), "WRAP%d" % k))
+            mk_ports(wdef, 1, 2)
+            wdef.create_child(maybe(nm(("i", id(wdef)), "w0")), reference=cur)
+            if r.random() < 0.25:
+                wdef.create_child(maybe(nm(("i", id(wdef)), "w1")), reference=cur)
+            cur = wdef
+        if cur.library is defs[-1].library or not strict or True:
+            defs[-1].create_child(maybe(nm(("i", id(defs[-1])), "deep")), reference=cur)
     top = defs[-1]
     if nlibs > 1 and top.name and r.random() < 0.3:
         # a decoy: an unused definition with the top definition's name in another library
@@ -175,9 +196,14 @@ def generate(rng, profile="any", ndefs=None, nlibs=None, style="simple", max_chi
         d = libs[-1].create_definition(nm(("d", nlibs - 1), "OUTSIDE"))
         for j in range(r.randint(1, 3)):
             d.create_child(nm(("i", id(d)), "o%d" % j), reference=r.choice(defs[:-1]))
-    if top_child_ok and r.random() < 0.15 and len(defs) > 2:
+    if top_child_ok and r.random() < 0.4 and len(defs) > 2:
+        # the top instance is also a child of a definition - and wired there like any other child
         holder = libs[-1].create_definition(nm(("d", nlibs - 1), "HOLDER"))
         inst = holder.create_child("top", reference=top)
+        hw = holder.create_cable("holder_net", wires=2)
+        for k_, op_ in enumerate(list(inst.pins)):
+            if r.random() < 0.7:
+                hw.wires[k_ % 2].connect_pin(op_)
         n.top_instance = inst
     else:
         n.top_instance = top
